@@ -237,3 +237,22 @@ def analysis_error_exit(prop: str, tier: str, exc: BaseException) -> int:
         print(f"ANALYSIS-ERROR property={prop} checker-exception {type(exc).__name__}: {exc}")
     sys.stdout.flush()
     return 2
+
+
+_LIBRARY_ERRORS = {"FlamaException", "ParsingException", "DuplicatedFeature", "ElementNotFound", "TransformationException",
+                   "OperationNotFound", "PluginNotFound", "ConfigurationNotFound"}
+
+
+def is_library_error(pm: Any, what: str) -> bool:
+    """Is the raised exception (text of the `raise` as the evaluator reports it) one of the library's own errors -
+    flamapy's exception classes or a class of the analysed package deriving from them?"""
+    import re as _re
+    mk = _re.match(r"(?:[A-Za-z_][A-Za-z0-9_]*\.)*([A-Za-z_][A-Za-z0-9_]*)", what.strip())
+    if not mk:
+        return False
+    kind = mk.group(1)
+    if kind in _LIBRARY_ERRORS:
+        return True
+    if pm is not None and pm.has_cls(kind):
+        return bool(pm.base_names(pm.cls(kind)) & _LIBRARY_ERRORS)
+    return False
